@@ -11,7 +11,8 @@ import itertools
 
 from traits.api import (AdaptsTo, Any, ComparisonMode, Event, Expression,
                         Float, HasTraits, Instance, Int, List,
-                        PrototypedFrom, Str, Supports, TraitError, Undefined)
+                        PrototypedFrom, Str, Supports, TraitError, Undefined,
+                        observe, on_trait_change)
 
 from props.lattice import C0, FOO0, IFoo
 
@@ -117,7 +118,7 @@ KINDS = {
     "EventProto": (lambda m: PrototypedFrom("proto"), ["1", "L1", "None"]),
 }
 HANDLERS = ["static", "static_base", "anytrait", "otc_fn", "otc_method",
-            "obs1", "obs2"]
+            "obs1", "obs2", "otc_ui", "obs_ui", "dec_otc", "dec_obs"]
 
 
 def configs():
@@ -160,6 +161,15 @@ class Rig:
                 if name == "x":
                     rec("anytrait", name, old, new)
 
+            # handlers declared with the decorators
+            @on_trait_change("x")
+            def _dec_otc(self, obj, name, old, new):
+                rec("dec_otc", name, old, new)
+
+            @observe("x")
+            def _dec_obs(self, ev):
+                rec("dec_obs", ev.name, ev.old, ev.new)
+
         class Listener:
             def m(self, obj, name, old, new):
                 rec("otc_method", name, old, new)
@@ -170,6 +180,12 @@ class Rig:
         self.o.on_trait_change(self.listener.m, "x")
         self.o.observe(lambda ev: rec("obs1", ev.name, ev.old, ev.new), "x")
         self.o.observe(lambda ev: rec("obs2", ev.name, ev.old, ev.new), "x")
+        # "ui" dispatch: immediate when called from the main thread
+        self.o.on_trait_change(
+            lambda obj, name, old, new: rec("otc_ui", name, old, new), "x",
+            dispatch="ui")
+        self.o.observe(lambda ev: rec("obs_ui", ev.name, ev.old, ev.new),
+                       "x", dispatch="ui")
         self.default = None
         for h in HANDLERS:
             log[h].clear()
@@ -248,7 +264,10 @@ def step(ctx, rig, ev, hist):
     v = POOL[ev[1]]
     exc = None
     try:
-        o.x = v
+        if len(ev) > 2:
+            o.trait_set(x=v)
+        else:
+            o.x = v
     except TraitError as e:
         exc = e
     except Exception as e:
@@ -349,14 +368,16 @@ def events(kind):
     evs = [("read",)]
     for tok in KINDS[kind][1]:
         evs.append(("assign", tok))
+    for tok in KINDS[kind][1][:3]:
+        evs.append(("assign", tok, "trait_set"))
     return evs
 
 
 def shards(tier):
     out = []
     for kind, mode in configs():
-        for raiser in [None] + HANDLERS:
-            out.append({"kind": kind, "mode": mode, "raiser": raiser})
+        for grp in (0, 1, 2):
+            out.append({"kind": kind, "mode": mode, "group": grp})
     return out
 
 
@@ -375,7 +396,12 @@ def canon(rig):
 
 
 def run_shard(ctx, shard, tier):
-    kind, mode, raiser = shard["kind"], shard["mode"], shard["raiser"]
+    raisers = ([None] + HANDLERS)[shard["group"]::3]
+    for raiser in raisers:
+        run_config(ctx, shard["kind"], shard["mode"], raiser, tier)
+
+
+def run_config(ctx, kind, mode, raiser, tier):
     depth = 4 if tier == "quick" else 6
     evs = events(kind)
     # stateless enumeration of all histories up to `depth` with canonical
@@ -413,7 +439,10 @@ def replay_quiet(rig, ev):
         if ev[0] == "read":
             rig.o.x
         else:
-            rig.o.x = POOL[ev[1]]
+            if len(ev) > 2:
+                rig.o.trait_set(x=POOL[ev[1]])
+            else:
+                rig.o.x = POOL[ev[1]]
             if rig.kind.startswith("Event"):
                 rig.fired = getattr(rig, "fired", 0) + 1
     except Exception:
